@@ -37,6 +37,14 @@ impl Client {
         }
 
         let full_url = req.uri().to_string();
+        // hyper cancels a request that is handed to a connection which has not signalled that it is ready for the
+        // next one (e.g. right after the previous response on a kept-alive connection)
+        self.sender.ready().await.map_err(|e| {
+            Error::Hyper(HyperErrorType::HostConnection(format!(
+                "the connection is not ready to send request to {}: {}",
+                full_url, e
+            )))
+        })?;
         self.sender.send_request(req).await.map_err(|e| {
             Error::Hyper(HyperErrorType::Custom(
                 format!("Failed to send request to {}", full_url),
